@@ -2,7 +2,7 @@
    correspondence driver feeds them (strings, association lists, bit patterns). *)
 From Coq Require Import String Ascii List Bool ZArith.
 From SvgdxModel Require Import Base.Str Base.Res Num.F32 Num.NumOps Gen.Tables Model.Types Model.Geom
-  Model.Position Model.Scan Model.Element.
+  Model.Position Model.Scan Model.Element Model.Text.
 Import ListNotations.
 Open Scope string_scope.
 
@@ -43,3 +43,10 @@ Definition run_resolve (name : string) (a : attrs) (others : list (string * attr
   Ok (match ecls FN e with
       | [] => eattrs FN e
       | cl => (eattrs FN e ++ [("class", concat_sep " " cl)])%list end).
+
+Definition flat_el (a : attrs) (cl : classes) : attrs :=
+  match cl with [] => a | _ => (a ++ [("class", concat_sep " " cl)])%list end.
+Definition run_textattr (name : string) (a : attrs) : res (attrs * list (string * attrs * string)) :=
+  do '(e, ts) <- process_text_attr FN strp fstr (new_el FN name a);
+  Ok (flat_el (eattrs FN e) (ecls FN e), map (fun t => let '(n, ta, tc, content) := t in (n, flat_el ta tc, content)) ts).
+Definition run_textstring (s : string) : string := text_string s.
